@@ -41,6 +41,27 @@ struct Pipe {
   int readers = 0, writers = 0;  // open file descriptions per end
   uint64_t total_w = 0, total_r = 0;
   size_t space() const { return cap - len; }
+  // the ring is allocated lazily and grows up to `cap`
+  void grow(size_t need) {
+    size_t nsz = buf.size() ? buf.size() : 256;
+    while (nsz < need && nsz < cap) nsz *= 2;
+    if (nsz > cap) nsz = cap;
+    std::vector<uint8_t> nb(nsz);
+    for (size_t i = 0; i < len; i++) nb[i] = buf[(head + i) % buf.size()];
+    buf.swap(nb);
+    head = 0;
+  }
+  void push(uint8_t b) {
+    if (len >= buf.size()) grow(len + 1);
+    buf[(head + len) % buf.size()] = b;
+    len++;
+  }
+  uint8_t pop() {
+    uint8_t b = buf[head];
+    head = (head + 1) % buf.size();
+    len--;
+    return b;
+  }
 };
 
 struct OFD {  // open file description
